@@ -18,6 +18,15 @@ CONFIGS = {
 }
 
 
+def hook_present():
+    """The harness calls the hook only when the hook commit is present in /repo's working tree."""
+    try:
+        src = open(os.path.join(lib.REPO, "cfavml", "src", "dispatch.rs")).read()
+    except OSError:
+        return ""
+    return " --cfg cfavml_verif_hook_present" if "verif_hook" in src else ""
+
+
 def cfh_bin(config):
     _, _, tdir, prof = CONFIGS[config]
     return os.path.join(lib.BUILD, tdir, prof, "cfh")
@@ -36,7 +45,7 @@ def build_cfh(config, verbose=False):
         if os.path.exists(lock_src) and not os.path.exists(os.path.join(CFH, "Cargo.lock")):
             shutil.copy(lock_src, os.path.join(CFH, "Cargo.lock"))
         cmd = "cargo %s build --offline %s" % (tc, " ".join(args))
-        env = {"CARGO_TARGET_DIR": os.path.join(lib.BUILD, tdir), "RUSTFLAGS": HOOK_FLAGS + " -Awarnings",
+        env = {"CARGO_TARGET_DIR": os.path.join(lib.BUILD, tdir), "RUSTFLAGS": HOOK_FLAGS + " -Awarnings --cfg cfh_%s%s" % (config, hook_present()),
                "CFH_CONFIG": config}
         t = time.time()
         rc, out = lib.sh(cmd, cwd=CFH, env=env, timeout=3000)
@@ -65,7 +74,8 @@ def build_driver(verbose=False):
             return True, "up to date"
         for f in srcs:
             shutil.copy(os.path.join(lib.VERIF, "ocaml", f), d)
-        order = ["driver_common.ml"] + [f for f in srcs if f not in ("driver_common.ml", "driver.ml")] + ["driver.ml"]
+        first = ["driver_common.ml", "driver_sym.ml", "driver_exp.ml"]
+        order = first + [f for f in srcs if f not in first + ["driver.ml"]] + ["driver.ml"]
         t = time.time()
         rc, out = lib.sh("ocamlfind ocamlopt -O3 -unboxed-types 2>/dev/null; ocamlfind ocamlopt -w -a -o driver model.mli model.ml "
                          + " ".join(order), cwd=d, timeout=1200)
